@@ -42,3 +42,4 @@ package httpd
 //@   at after Database#1: ghost auth_on = h.Config.AuthEnabled
 //@   at after AuthorizeWrite#1: ghost write_authorised = callresult0 == nil
 //@   call serveWrite$2#1 requires a_write_runs_only_when_authorised: !auth_on || write_authorised
+//@   call AuthorizeWrite#1 requires authorised_for_the_database_that_is_written: callarg1 == database
